@@ -126,14 +126,25 @@ func scLinear(r *gen.Rand, name string, n int) Case {
 				} else {
 					txs = []int{good, good}
 				}
-			case 3: // expired by height (Expire <= height)
-				txs = []int{good, b.tx(tag, 0, true, fmt.Sprintf("h%d", 1+r.Intn(h)), true, true, true, "r", 5)}
+			case 3: // expired by height (Expire <= height); the boundary Expire = height half of the time
+				n := h
+				if r.Bool() {
+					n = 1 + r.Intn(h)
+				}
+				txs = []int{good, b.tx(tag, 0, true, fmt.Sprintf("h%d", n), true, true, true, "r", 5)}
 				tag++
-			case 4: // expired by time (Expire <= block time)
-				txs = []int{b.tx(tag, 0, true, fmt.Sprintf("t%d", 1+r.Intn(h)), true, true, true, "r", 5), good}
+			case 4: // expired by time (Expire <= block time); the boundary Expire = block time half of the time
+				n := b.blks[tip].time + 1 + o.salt
+				if r.Bool() {
+					n = 1 + r.Intn(n)
+				}
+				txs = []int{b.tx(tag, 0, true, fmt.Sprintf("t%d", n), true, true, true, "r", 5), good}
 				tag++
-			case 5: // TxHeight outside the window
-				th := h + lo + 1 + r.Intn(3)
+			case 5: // TxHeight outside the window: just above / just below, or further away
+				th := h + lo + 1
+				if r.Chance(1, 3) {
+					th += 1 + r.Intn(3)
+				}
 				if r.Bool() && h-hi-1 >= 1 {
 					th = h - hi - 1
 				}
@@ -174,6 +185,9 @@ func scLinear(r *gen.Rand, name string, n int) Case {
 				}
 			}
 			w := b.blk(tip, txs, o)
+			if r.Chance(1, 2) {
+				b.op("produce %d", w) // the same body offered to the node's own block production
+			}
 			b.deliver(w, "p", bc(r))
 		}
 		// the valid block: fresh transactions, now and then with expiries that are still fine
@@ -182,12 +196,18 @@ func scLinear(r *gen.Rand, name string, n int) Case {
 		for j := 0; j < m; j++ {
 			exp := "n"
 			switch r.Intn(6) {
-			case 0:
-				exp = fmt.Sprintf("h%d", h+1+r.Intn(3))
-			case 1:
-				exp = fmt.Sprintf("t%d", h+2+r.Intn(50))
-			case 2:
+			case 0: // still valid: Expire > height (boundary height+1 half of the time)
+				exp = fmt.Sprintf("h%d", h+1+r.Intn(2)*r.Intn(3))
+			case 1: // still valid: Expire > block time (boundary block time + 1 half of the time)
+				exp = fmt.Sprintf("t%d", b.blks[tip].time+2+r.Intn(2)*r.Intn(50))
+			case 2: // inside the window, its two ends included
 				th := h - hi + r.Intn(hi+lo+1)
+				switch r.Intn(4) {
+				case 0:
+					th = h - hi
+				case 1:
+					th = h + lo
+				}
 				if th >= 1 {
 					exp = fmt.Sprintf("x%d", th)
 				}
@@ -210,6 +230,7 @@ func scLinear(r *gen.Rand, name string, n int) Case {
 		o.salt = 1 + j
 		w := b.blk(tip, []int{chainTxs[r.Intn(len(chainTxs))], b.plain(tag)}, o)
 		tag++
+		b.op("produce %d", w)
 		b.deliver(w, "p", bc(r))
 	}
 	b.op("scan")
@@ -313,6 +334,9 @@ func scWindow(r *gen.Rand, name string) Case {
 			o.salt = 1
 			w := b.blk(tip, []int{p.inst, b.plain(tag)}, o)
 			tag++
+			if r.Bool() {
+				b.op("produce %d", w)
+			}
 			b.deliver(w, "p", bc(r))
 		}
 		th := h - hi + r.Intn(hi+lo+1)
@@ -342,16 +366,16 @@ func GenC28(seed uint64) []Case {
 	cs = append(cs, scS28(r, "s28-victim-key1", false, false))
 	cs = append(cs, scS28(r, "s28-extra-bad", true, true))
 	cs = append(cs, scPoolHonest(r, "pool-honest"))
-	for i := 0; i < gen.Scale(6, 60); i++ {
+	for i := 0; i < gen.Scale(6, 240); i++ {
 		cs = append(cs, scLinear(r, fmt.Sprintf("linear%d", i), 3+r.Intn(gen.Scale(5, 10))))
 	}
-	for i := 0; i < gen.Scale(4, 40); i++ {
+	for i := 0; i < gen.Scale(4, 160); i++ {
 		cs = append(cs, scReorg(r, fmt.Sprintf("reorg%d", i)))
 	}
-	for i := 0; i < gen.Scale(4, 40); i++ {
+	for i := 0; i < gen.Scale(4, 160); i++ {
 		cs = append(cs, scWindow(r, fmt.Sprintf("window%d", i)))
 	}
-	for i := 0; i < gen.Scale(2, 12); i++ {
+	for i := 0; i < gen.Scale(2, 40); i++ {
 		cs = append(cs, scS28(r, fmt.Sprintf("s28-%d", i), r.Bool(), r.Chance(1, 3)))
 	}
 	return cs
